@@ -1113,16 +1113,26 @@ Lemma f17b_twins_both_redundant :
   exists s, suggest true f17b_roas f17e_held None (Some f17e_store) = Some s /\ s_redundant s = f17b_roas /\ s_keep s = [].
 Proof. eexists. split; [vm_compute; reflexivity|]. split; reflexivity. Qed.
 
-(** F17c: the held / scope test ignores the address family: with only the IPv6 block [2a04:b900::/29] held, the
-    IPv4 ROA [42.4.185.0/29 => 64496] is treated as held (reported "unseen" instead of "not held"). *)
+(** F17c (found by this model, fixed in /repo by 2496aeb4 "check that a ROA prefix is held within its own address
+    family"): the held / scope test used to ignore the address family, so that with only the IPv6 block
+    [2a04:b900::/29] held the IPv4 ROA [42.4.185.0/29 => 64496] (the same 128-bit range) was treated as held.
+    Regression: it is now reported "not held", and in general a ROA is only held through a block of its own family. *)
 Definition f17c_held : resources :=
   mkRes [] [(55852097256177281531502448758579265536, 55852097890002581645617149506930868223)] [] [mkP V6 55852097256177281531502448758579265536 29].
 Definition f17c_roa : croa := mkRoa (mkPl 64496 (mkP V4 704952576 29) None) 0.
 
-Lemma f17c_family_blind_containment :
+Lemma f17c_fixed :
   resources_ok f17c_held = true /\ rs_r4 f17c_held = []
-  /\ analyse true [f17c_roa] f17c_held None (Some []) = Some [roa_unseen f17c_roa].
+  /\ analyse true [f17c_roa] f17c_held None (Some []) = Some [roa_not_held f17c_roa].
 Proof. split; [reflexivity|]. split; reflexivity. Qed.
+
+Lemma is_held_by_own_family pl rs : is_held_by pl rs = true ->
+  exists a b, In (a, b) (match p_fam (pl_pfx pl) with V4 => rs_r4 rs | V6 => rs_r6 rs end)
+              /\ a <= min128 (pl_pfx pl) /\ max128 (pl_pfx pl) <= b.
+Proof.
+  unfold is_held_by. intros H. apply existsb_exists in H. destruct H as ([a b] & Hin & H).
+  apply andb_true_iff in H. rewrite !N.leb_le in H. exists a, b. tauto.
+Qed.
 
 (** * Non-vacuity: one concrete analysis meeting the hypotheses of the theorems above *)
 Definition ex_held : resources :=
